@@ -403,3 +403,50 @@ def offset_accumulation(ctx: Ctx) -> None:
                     (ctx.ok if good else ctx.bad)(R, f, c, 'the leaf lookup is offset by the accumulated offset' if good else
                                                   f'the leaf lookup is offset by `{norm(kwarg(c, "offset"))}`, not by the accumulated offset', key=key + f':leaf#{lookups.index(c)}')
     ctx.require(n >= 3, 'offset-carrying worklist walks')
+
+
+def leaf_exit_key_exhausted(ctx: Ctx) -> None:
+    R = 'I.leaf-exit-key-exhausted'
+    ctx.rule(R, 'sibling agreement of the IndexLevel tree walkers that consume a key component by component (membership and leaf lookup): a successful answer given from '
+             'inside the loop at a leaf (no `targets`) is conditioned on the key being exhausted (a test over the position of the component / len(key)); an unconditional '
+             'success at the leaf accepts over-long tuples, so membership is true for labels that lookup rejects', floor=2)
+    prog = ctx.prog
+    k = prog.cls('IndexLevel')
+    n = 0
+    for mname, f in k.methods.items():
+        params = set(f.params)
+        for lp in walk_local(f.node):
+            if not isinstance(lp, ast.For):
+                continue
+            it = lp.iter
+            counter = None
+            if isinstance(it, ast.Call) and call_name(it) == 'enumerate' and it.args and isinstance(lp.target, ast.Tuple) and isinstance(lp.target.elts[0], ast.Name):
+                counter = lp.target.elts[0].id
+                it = it.args[0]
+            if not (isinstance(it, ast.Name) and it.id in params):
+                continue
+            # a walker: descends through `.targets[...]` inside the loop
+            if not any(isinstance(a, ast.Assign) and isinstance(a.value, ast.Subscript) and isinstance(a.value.value, ast.Attribute) and a.value.value.attr == 'targets' for a in ast.walk(lp)):
+                continue
+            keyname = it.id
+            # names derived from len(key)
+            len_names = {a.targets[0].id for a in walk_local(f.node) if isinstance(a, ast.Assign) and isinstance(a.targets[0], ast.Name)
+                         and any(isinstance(c, ast.Call) and call_name(c) == 'len' and c.args and norm(c.args[0]) == keyname for c in ast.walk(a.value))}
+            from sfa.rules.blockrules import _enclosing_ifs
+            exits = [r for r in ast.walk(lp) if isinstance(r, ast.Return) and r.value is not None and not (isinstance(r.value, ast.Constant) and r.value.value is False)]
+            n += 1
+            key = f'IndexLevel.{mname}'
+            bad = None
+            for r in exits:
+                tests = [i.test for i, _p in _enclosing_ifs(lp, r)]
+                cond = any(isinstance(x, ast.Name) and (x.id in len_names or x.id == counter) for t in tests for x in ast.walk(t)) or \
+                    any(isinstance(c, ast.Call) and call_name(c) == 'len' and c.args and norm(c.args[0]) == keyname for t in tests for c in ast.walk(t))
+                if not cond:
+                    bad = r
+                    break
+            if bad is not None:
+                ctx.bad(R, f, bad, f'`{norm(bad)}` answers from inside the component loop without testing that `{keyname}` is exhausted: a key longer than the depth is accepted '
+                        '(`(a, 1, 99) in ih` is True while ih.loc_to_iloc((a, 1, 99)) raises)', key=key)
+            else:
+                ctx.ok(R, f, lp, 'a successful exit inside the loop is conditioned on the key position' if exits else 'success is only reported after the loop (the key is consumed)', key=key)
+    ctx.require(n >= 2, 'IndexLevel key walkers')
